@@ -4,7 +4,7 @@ use std::mem::swap;
 use std::rc::Rc;
 
 use clvm_rs::error::EvalErr;
-use num_bigint::ToBigInt;
+use num_bigint::{Sign, ToBigInt};
 
 use clvm_rs::allocator::{Allocator, NodePtr, SExp};
 use clvm_rs::cost::Cost;
@@ -22,7 +22,7 @@ use crate::classic::clvm_tools::stages::stage_0::TRunProgram;
 use crate::classic::clvm_tools::stages::stage_2::helpers::quote;
 use crate::classic::clvm_tools::stages::stage_2::operators::AllocatorRefOrTreeHash;
 
-use crate::util::{number_from_u8, u8_from_number};
+use crate::util::{number_from_u8, u8_from_number, Number};
 
 #[derive(Clone)]
 pub struct DoOptProg {}
@@ -527,7 +527,7 @@ fn path_optimizer(
             match first
                 .get("atom")
                 .and_then(|a| atom(allocator, *a).ok())
-                .map(|atom| number_from_u8(&atom))
+                .map(|atom| Number::from_bytes_be(Sign::Plus, &atom))
             {
                 Some(atom) => {
                     let node = NodePath::new(Some(atom)).add(NodePath::new(None).first());
@@ -540,7 +540,7 @@ fn path_optimizer(
             match rest
                 .get("atom")
                 .and_then(|a| atom(allocator, *a).ok())
-                .map(|atom| number_from_u8(&atom))
+                .map(|atom| Number::from_bytes_be(Sign::Plus, &atom))
             {
                 Some(atom) => {
                     let node = NodePath::new(Some(atom)).add(NodePath::new(None).rest());
